@@ -127,7 +127,7 @@ def run_replays_for(pid, ctx=None, workers=6):
     agent_rf = []
     for mf in sorted(glob.glob(os.path.join(VERIF, "refactors", "*", "meta.json"))):
         m = json.load(open(mf))
-        if pid in m.get("checks", []):
+        if pid in m.get("checks", []) and m.get("written_for_property") == pid:      # full matrix: ./check selftest --agent-refactors
             agent_rf.append((m["id"], os.path.join(os.path.dirname(mf), "patch.diff")))
     rfs = [rf for rf in load_refactors() if pid in rf["props"]]
     res = {"seeded": {"applied": 0, "reported": 0, "missed": [], "skipped": []},
